@@ -26,6 +26,10 @@ def _vboom(v, bad):
 def _vnested(s):
     # a parse started from inline Python in the middle of another parse
     return Word.parse(s)
+
+def _vnested_obj(s):
+    # ... whose result is a class instance that ends up inside the outer parse's result
+    return Pair.parse(s)
 ```
 '''
 
@@ -66,6 +70,45 @@ def accum_results(mod, texts):
         except BaseException as e:  # noqa
             out.append(['exc', type(e).__name__, str(e)[:100]])
     return out
+
+
+ORD_BASE = ('grammar {b}\nstart = Items(",")\nItems(sep) = Word // sep\nWord = /[ab]+/\n'
+            'Tagged = [Word, After("=")]\nAfter(p) = p >> Word\n')
+ORD_SUB = ('grammar {s} extends {b}\nignore / +/\nSubList = Items(",")\nSubTagged = [Word, After("=")]\n'
+           'Own = [Word, ",", Word]\n')
+ORD_CALLS = [('b', 'start', 'a,b'), ('b', 'start', 'a , b'), ('b', 'Tagged', 'a=b'), ('b', 'Tagged', 'a= b'),
+             ('s', 'SubList', 'a,b'), ('s', 'SubList', 'a , b'), ('s', 'SubTagged', 'a=b'), ('s', 'SubTagged', 'a = b'),
+             ('s', 'Own', 'a , b'), ('s', 'start', 'a,b'), ('s', 'start', 'a ,b')]
+
+
+def order_outcomes(cid):
+    """The same calls on a base grammar and a grammar extending it (which adds an ignore pattern; both pass the same
+    literals to the same parameterised rules), in three different orders, each order on a freshly created pair of
+    modules: the outcome of a call may depend on nothing but the module and the call."""
+    import sys
+    import sourcer
+    orders = {'base-first': sorted(range(len(ORD_CALLS)), key=lambda i: (ORD_CALLS[i][0] != 'b', i)),
+              'sub-first': sorted(range(len(ORD_CALLS)), key=lambda i: (ORD_CALLS[i][0] != 's', i)),
+              'alternating': sorted(range(len(ORD_CALLS)), key=lambda i: (i % 4, i))}
+    res = {}
+    for k, (oname, idx) in enumerate(sorted(orders.items())):
+        b, sname = 'vg_c18_ob%d_%d' % (cid, k), 'vg_c18_os%d_%d' % (cid, k)
+        try:
+            mb = sourcer.Grammar(ORD_BASE.format(b=b))
+            ms = sourcer.Grammar(ORD_SUB.format(b=b, s=sname))
+            got = [None] * len(ORD_CALLS)
+            for i in idx:
+                which, entry, text = ORD_CALLS[i]
+                m = mb if which == 'b' else ms
+                fn = m.parse if entry == 'start' else getattr(m, entry).parse
+                got[i] = realrun.call_parse(m, fn, text, 0, True)[:3]
+            res[oname] = got
+        except Exception as e:   # noqa
+            res[oname] = ['exc', type(e).__name__, str(e)[:150]]
+        finally:
+            sys.modules.pop(b, None)
+            sys.modules.pop(sname, None)
+    return ['orders', res]
 
 
 def history_worker(case):
@@ -123,6 +166,10 @@ def history_worker(case):
                 out.append(one('Outer', g2, 0, True))
             elif kind == 'nested2':
                 out.append(one('Outer2', step[1], 0, True))
+            elif kind == 'nested3':
+                out.append(one('Outer3', step[1], 0, True))
+            elif kind == 'orders':
+                out.append(order_outcomes(case['id']))
             elif kind == 'accum':
                 # inline Python outside the modelled repertoire (mutable accumulators): the isolated outcome of each
                 # call is what a freshly compiled module returns for it as its first call
@@ -305,7 +352,9 @@ def run(chk):
             + 'Outer = /[ab,=]+/ |> `lambda s: [s, _vnested(s.split(",")[0].split("=")[0])]`\n'
             # the nested parse happens in the first alternative; the second one asks for the same rules again
             + 'Outer2 = [Word, Nest, "!"] | [Word, Nest, "?"]\n'
-            + 'Nest = "=" >> (Word |> `lambda s: _vnested(s)`)\n' + ACCUM)
+            + 'Nest = "=" >> (Word |> `lambda s: _vnested(s)`)\n'
+            # the nested parse returns a class instance, which becomes part of the outer parse's result
+            + 'Outer3 = [Pair, ";" >> (/[ab=]+/ |> `lambda s: _vnested_obj(s)`), (";" >> Pair)?]\n' + ACCUM)
     words = ['a', 'b', 'ab', 'bb', 'ba', 'abb', 'bb', 'aab']
     texts = []
     for _ in range(60 if chk.tier == 'quick' else 400):
@@ -345,6 +394,9 @@ def run(chk):
         steps.append(['nested', 'bb,a'])
         steps.append(['nested2', 'ab=ba?'])
         steps.append(['nested2', 'a=b!'])
+        steps.append(['nested3', 'a=b;ab=ba'])
+        steps.append(['nested3', 'ab=a;b=b;a=ab'])
+        steps.append(['orders'])
         steps.append(['accum', ['ab,b', 'a', 'ab,b', 'zz', 'b,a,b']])
         if h % 2:
             steps.append(['siblings'])
@@ -400,6 +452,33 @@ def run(chk):
                 elif o[1] != o[2]:
                     chk.violation('compiling a second grammar that extends the same base altered the first one | before %s '
                                   '| after %s' % (o[1], o[2]), {'before': o[1], 'after': o[2]})
+            elif step[0] == 'orders':
+                chk.count(['orders', hc['id']], True)
+                res = o[1]
+                bad = [k for k, v in res.items() if v and v[0] == 'exc']
+                if bad:
+                    chk.violation('creating the base / extending pair failed: %s' % (res[bad[0]],), {'observed': res})
+                else:
+                    names = sorted(res)
+                    for i, call in enumerate(ORD_CALLS):
+                        outs = [res[n][i] for n in names]
+                        if any(x != outs[0] for x in outs[1:]):
+                            chk.violation('the outcome of a call depends on which calls were made before (base grammar and '
+                                          'a grammar extending it) | call %s | %s'
+                                          % (list(call), ' | '.join('%s: %s' % (n, x) for n, x in zip(names, outs))),
+                                          {'call': list(call), 'outcomes': dict(zip(names, outs))})
+            elif step[0] == 'nested3':
+                t = step[1]
+                parts = t.split(';')
+
+                def pair(x):
+                    l, r = x.split('=')
+                    return ['o', 'Pair', [['l', ['s', T(l)]], ['r', ['s', T(r)]]]]
+                want = ['ok', ['l', [pair(parts[0]), pair(parts[1]), pair(parts[2]) if len(parts) > 2 else ['none']]], len(t)]
+                chk.count(['nested3', t], True)
+                if o[:3] != want:
+                    chk.violation('nested parse whose result (a class instance) becomes part of the outer result: '
+                                  'expected %s, observed %s' % (want, o), {'text': t, 'observed': o})
             elif step[0] == 'nested2':
                 t = step[1]
                 w1, w2 = t[:-1].split('=')
